@@ -514,7 +514,10 @@ class World:
             can_miss = v['dtype'].startswith('f') or v['fill'] is not None or v['dtype'] in ('dt', 'td')
             info['can_miss'] = can_miss
             miss = set()
-            if can_miss and v['missing_frac'] and kind:
+            # datetime-like data starts without missing elements: xarray cannot lazily encode an all-NaT datetime array
+            # with an integer on-disk type (ValueError from its encoder, with or without emsarray), so a clip whose kept
+            # cells are all NaT could not be written again -- an upstream limit, not a statement about emsarray
+            if can_miss and v['missing_frac'] and kind and v['dtype'] not in ('dt', 'td'):
                 import random
                 r = random.Random(v['missing_seed'])
                 for lin in range(gsize):
